@@ -17,7 +17,11 @@ require (
 	verifkit v0.0.0
 )
 
-require golang.org/x/sys v0.43.0 // indirect
+require (
+	github.com/oklog/ulid/v2 v2.1.1 // indirect
+	github.com/twmb/murmur3 v1.1.8 // indirect
+	golang.org/x/sys v0.43.0 // indirect
+)
 
 replace (
 	github.com/redis/rueidis => /repo
